@@ -184,6 +184,14 @@ def run(ctx):
                   if not gr.violations else gr.violations[0].msg, f.file,
                   gr.violations[0].node.line if gr.violations else f.line,
                   path=gr.violations[0].path if gr.violations else None, config=config)
+        _cv = errdisc.Conventions(prog)
+        _rtb = [b for b in errdisc.return_type_breaches(prog, _cv) if 'valid' in b[0].name or b[0].name.startswith('comp_')]
+        for _fn, _where, _msg in _rtb:
+            ck.ob('C02-b', 'R1.return-type', _fn.name, 'signed-result', False, '%s: %s' % (_fn.name, _msg), _fn.file,
+                  getattr(_where, 'line', _fn.line), config=config)
+        if not _rtb:
+            ck.ob('C02-b', 'R1.return-type', '*', 'signed-verdicts', True,
+                  'every verdict function returns a signed type (a -1 mismatch is not converted to true)', config=config)
         sites, convs = errdisc.analyse_sites(
             prog, want_site=lambda fn, c, label: label == 'comp_end_dchunk' and fn.name == 'comp_read', which='verify')
         ck.require(len(sites) >= 1 or calls_of(prog.need_func('comp_read'), ('comp_end_dchunk',)),
